@@ -30,6 +30,129 @@ fn canon_nan(s: &str) -> String {
     out
 }
 
+
+// ---------------------------------------------------------------------------------------------------------
+// rule-level coverage: which arm of `Exp::simplify` / `Exp::flatten` fires where (tags `rule:s:*`, `rule:f:*`).
+// The tracer asks the REAL code for the simplified children and only names the arm the real code then takes;
+// it decides nothing about correctness.
+fn num_truthy(v: f64) -> bool { v != 0.0 }
+fn is_num(e: &Exp) -> Option<f64> { if let Exp::Number(v) = e { Some(*v) } else { None } }
+
+fn nary_rules(children: &[Exp], is_and: bool, t: &mut std::collections::BTreeSet<String>) {
+    let k = if is_and { "and" } else { "or" };
+    let mut flat: Vec<Exp> = vec![];
+    for c in children {
+        let c = c.simplify();
+        match (is_and, c) {
+            (true, Exp::And(inner)) => { t.insert(format!("rule:s:{k}-splice-same-kind")); flat.extend(inner) }
+            (false, Exp::Or(inner)) => { t.insert(format!("rule:s:{k}-splice-same-kind")); flat.extend(inner) }
+            (_, c) => flat.push(c),
+        }
+    }
+    let any_undef = flat.iter().any(|e| e.may_be_undefined());
+    if any_undef { t.insert(format!("rule:s:{k}-keep-mode-any-undefined")); }
+    let mut res = 0usize;
+    for e in &flat {
+        if let Some(v) = is_num(e) {
+            let absorbing = num_truthy(v) != is_and;
+            if !any_undef {
+                if absorbing { t.insert(format!("rule:s:{k}-absorbing-short-circuit")); return; }
+                t.insert(format!("rule:s:{k}-identity-dropped"));
+            } else if absorbing { t.insert(format!("rule:s:{k}-absorbing-kept")); res += 1; }
+            else { t.insert(format!("rule:s:{k}-identity-dropped")); }
+        } else { res += 1; }
+    }
+    t.insert(format!("rule:s:{k}-result-{}", match res { 0 => "empty", 1 => "singleton", _ => "many" }));
+}
+
+fn simplify_rules(e: &Exp, t: &mut std::collections::BTreeSet<String>) {
+    let mut ins = |s: &str| { t.insert(format!("rule:s:{s}")); };
+    match e {
+        Exp::Number(_) | Exp::Variable(_) => ins("leaf"),
+        Exp::BinOp(op, l, r) => {
+            let (ls, rs) = (l.simplify(), r.simplify());
+            let (ln, rn) = (is_num(&ls), is_num(&rs));
+            match op {
+                BinOp::Add => ins(match (ln, rn) { (Some(_), Some(_)) => "add-fold", (Some(a), _) if a == 0.0 => "add-zero-l", (_, Some(b)) if b == 0.0 => "add-zero-r", _ => "add-keep" }),
+                BinOp::Sub => ins(match (ln, rn) { (Some(_), Some(_)) => "sub-fold", (_, Some(b)) if b == 0.0 => "sub-zero-r", _ => "sub-keep" }),
+                BinOp::Mul => ins(match (ln, rn) {
+                    (Some(_), Some(_)) => "mul-fold",
+                    (Some(a), _) if a == 0.0 && !rs.may_be_undefined() => "mul-zero-l",
+                    (_, Some(b)) if b == 0.0 && !ls.may_be_undefined() => "mul-zero-r",
+                    (Some(a), _) if a == 0.0 => "mul-zero-guarded-kept",
+                    (_, Some(b)) if b == 0.0 => "mul-zero-guarded-kept",
+                    (Some(a), _) if a == 1.0 => "mul-one-l",
+                    (_, Some(b)) if b == 1.0 => "mul-one-r",
+                    _ => "mul-keep" }),
+                BinOp::Div => ins(match (ln, rn) {
+                    (Some(_), Some(b)) if b == 0.0 => "div-literal-zero-kept",
+                    (Some(_), Some(_)) => "div-fold",
+                    (_, Some(b)) if b == 1.0 => "div-one",
+                    _ => "div-keep" }),
+                BinOp::And => { ins("binop-and-to-nary"); }
+                BinOp::Or => { ins("binop-or-to-nary"); }
+                BinOp::Xor => ins(if ln.is_some() && rn.is_some() { "binop-xor-fold" } else { "binop-xor-to-structural" }),
+                BinOp::Implies => ins(if ln.is_some() && rn.is_some() { "binop-implies-fold" } else { "binop-implies-to-structural" }),
+                BinOp::Iff => ins(if ln.is_some() && rn.is_some() { "binop-iff-fold" } else { "binop-iff-to-structural" }),
+            }
+            drop(ins);
+            match op { BinOp::And => nary_rules(&[ls, rs], true, t), BinOp::Or => nary_rules(&[ls, rs], false, t), _ => {} }
+            simplify_rules(l, t); simplify_rules(r, t);
+        }
+        Exp::UnOp(op, x) => {
+            let n = is_num(&x.simplify()).is_some();
+            ins(match (op, n) { (UnOp::Neg, true) => "neg-fold", (UnOp::Neg, false) => "neg-keep", (UnOp::Not, true) => "unop-not-fold", (UnOp::Not, false) => "unop-not-to-structural" });
+            drop(ins); simplify_rules(x, t);
+        }
+        Exp::Abs(x) => { ins(if is_num(&x.simplify()).is_some() { "abs-fold" } else { "abs-keep" }); drop(ins); simplify_rules(x, t); }
+        Exp::Not(x) => { ins(if is_num(&x.simplify()).is_some() { "not-fold" } else { "not-keep" }); drop(ins); simplify_rules(x, t); }
+        Exp::Xor(a, b) | Exp::Implies(a, b) | Exp::Iff(a, b) => {
+            let k = match e { Exp::Xor(..) => "xor", Exp::Implies(..) => "implies", _ => "iff" };
+            let f = is_num(&a.simplify()).is_some() && is_num(&b.simplify()).is_some();
+            ins(&format!("{k}-{}", if f { "fold" } else { "keep" }));
+            drop(ins); simplify_rules(a, t); simplify_rules(b, t);
+        }
+        Exp::And(es) | Exp::Or(es) => {
+            drop(ins);
+            nary_rules(es, matches!(e, Exp::And(_)), t);
+            for x in es { simplify_rules(x, t); }
+        }
+        Exp::Max(es) | Exp::Min(es) => {
+            let k = if matches!(e, Exp::Max(_)) { "max" } else { "min" };
+            if es.is_empty() { ins(&format!("{k}-empty")); }
+            else if es.iter().all(|x| is_num(&x.simplify()).is_some()) { ins(&format!("{k}-fold")); }
+            else { ins(&format!("{k}-keep")); }
+            drop(ins);
+            for x in es { simplify_rules(x, t); }
+        }
+    }
+}
+
+fn flatten_rules(e: &Exp, t: &mut std::collections::BTreeSet<String>) {
+    let mk = |op: BinOp, a: &Exp, b: &Exp| Exp::BinOp(op, Box::new(a.clone()), Box::new(b.clone()));
+    let addsub = |op: &BinOp| matches!(op, BinOp::Add | BinOp::Sub);
+    match e {
+        Exp::BinOp(op, l, r) => match (op, &**l, &**r) {
+            (BinOp::Mul, Exp::BinOp(i, a, b), c) if addsub(i) => {
+                t.insert("rule:f:mul-distribute-right".into());
+                flatten_rules(&mk(*i, &mk(BinOp::Mul, a, c), &mk(BinOp::Mul, b, c)), t);
+            }
+            (BinOp::Mul, c, Exp::BinOp(i, a, b)) if addsub(i) => {
+                t.insert("rule:f:mul-distribute-left".into());
+                flatten_rules(&mk(*i, &mk(BinOp::Mul, c, a), &mk(BinOp::Mul, c, b)), t);
+            }
+            (BinOp::Mul, Exp::UnOp(UnOp::Neg, a), c) => { t.insert("rule:f:mul-neg-left".into()); flatten_rules(&mk(BinOp::Mul, a, c), t); }
+            (BinOp::Mul, c, Exp::UnOp(UnOp::Neg, b)) => { t.insert("rule:f:mul-neg-right".into()); flatten_rules(&mk(BinOp::Mul, c, b), t); }
+            (BinOp::Div, Exp::BinOp(i, a, b), c) if addsub(i) => {
+                t.insert("rule:f:div-distribute".into());
+                flatten_rules(&mk(BinOp::Div, a, c), t); flatten_rules(&mk(BinOp::Div, b, c), t);
+            }
+            (op, a, b) => { t.insert(format!("rule:f:descend-{}", sx::binop(*op))); flatten_rules(a, t); flatten_rules(b, t); }
+        },
+        _ => { t.insert("rule:f:other-unchanged".into()); }
+    }
+}
+
 fn one(e: &Exp, which: &str, tag: &str) -> Case {
     let req_e = canon_nan(&sx::exp(e));
     let out = if which == "simplify" { e.simplify() } else { e.clone().flatten() };
@@ -41,6 +164,18 @@ fn one(e: &Exp, which: &str, tag: &str) -> Case {
     c.nontrivial = out_s != req_e;
     c.tags = vec![tag.to_string(), which.to_string(), if c.nontrivial { "rewritten".into() } else { "unchanged".into() }];
     c.show = format!("{}({})", which, e);
+    let mut rules = std::collections::BTreeSet::new();
+    if which == "simplify" { simplify_rules(e, &mut rules) } else { flatten_rules(e, &mut rules) }
+    c.tags.extend(rules);
+    if which == "collapses" {
+        // the region predicate of `simplify_eval_eq` / of the known finding's flag, diffed model vs harness
+        let mut c = Case::default();
+        c.req = format!("collapses {}", req_e);
+        c.imp = format!("(ok {})", crate::props::c01::collapses_nonbinary_with(e, &|_| false));
+        c.tags = vec![tag.to_string(), "collapses".into()];
+        c.show = format!("collapses({})", e);
+        return c;
+    }
     if which == "simplify" {
         // idempotence, checked on the implementation directly
         let twice = out.simplify();
@@ -151,6 +286,86 @@ fn respell_case(r: &mut Rng) -> Option<Case> {
     Some(c)
 }
 
+/// Twin models whose constraint SIDE is itself a bare `abs{}` / `min{}` / `max{}` block with a coefficient that
+/// is a constant sub-expression in one twin and the folded literal in the other.  The bound inference only
+/// recognises literal coefficients, so the twins agree only if `normalized_for_bounds` normalises EVERY side
+/// (`Compile.normalizedForBounds_spec` in the model; the expression-level fact is `respell_normalize`).
+/// Compared on the implementation: acceptance / error kind, published domains and inferred ranges, compiled rows.
+fn respell_block_cases(r: &mut Rng, count: usize) -> Vec<Case> {
+    use rooc::{Comparison, OptimizationType, VariableType};
+    let num = |v: f64| Exp::Number(v);
+    let var = |n: &str| Exp::Variable(n.into());
+    let bx = |op: BinOp, l: Exp, rr: Exp| Exp::BinOp(op, Box::new(l), Box::new(rr));
+    let ds = vec![
+        gen_model::VarDecl { name: "x".into(), ty: VariableType::Real(f64::NEG_INFINITY, f64::INFINITY) },
+        gen_model::VarDecl { name: "y".into(), ty: VariableType::Real(f64::NEG_INFINITY, f64::INFINITY) },
+    ];
+    let mut out = vec![];
+    for i in 0..count {
+        let k = *r.pick(&[2.0, 3.0, 4.0, -2.0, 0.5, -4.0]);
+        // spellings of the constant k (all exact in binary floating point)
+        let spelled: Exp = match i % 5 {
+            0 => bx(BinOp::Add, num(k - 1.0), num(1.0)),
+            1 => bx(BinOp::Div, num(2.0 * k), num(2.0)),
+            2 => bx(BinOp::Sub, num(k + 1.0), num(1.0)),
+            3 => bx(BinOp::Mul, num(k / 2.0), num(2.0)),
+            _ => Exp::UnOp(UnOp::Neg, Box::new(num(-k))),
+        };
+        let commuted = r.chance(1, 4);
+        let term = |c: Exp| if commuted { bx(BinOp::Mul, var("x"), c) } else { bx(BinOp::Mul, c, var("x")) };
+        let kind = r.below(3);
+        let block = |t: Exp| match kind { 0 => Exp::Max(vec![t, var("y")]), 1 => Exp::Min(vec![t, var("y")]), _ => Exp::Abs(Box::new(t)) };
+        // the block bounds k*x from the side that makes the bound finite: max/abs <= b, min >= -b
+        let b = 10.0 + r.below(5) as f64;
+        let on_rhs = r.chance(1, 3);
+        let side = |t: Exp| -> Constraint {
+            let (blk, cmp, c) = match kind { 1 => (block(t), Comparison::GreaterOrEqual, num(-b)), _ => (block(t), Comparison::LessOrEqual, num(b)) };
+            if on_rhs {
+                let flipped = match cmp { Comparison::LessOrEqual => Comparison::GreaterOrEqual, _ => Comparison::LessOrEqual };
+                Constraint::new(c, flipped, blk, String::new())
+            } else { Constraint::new(blk, cmp, c, String::new()) }
+        };
+        // the other half of x's range, and an exact-value abs that needs the finite range
+        let other = if (k > 0.0) == (kind != 1) { Constraint::new(var("x"), Comparison::GreaterOrEqual, num(-7.0), String::new()) }
+                    else { Constraint::new(var("x"), Comparison::LessOrEqual, num(7.0), String::new()) };
+        let needs = Constraint::new(Exp::Abs(Box::new(var("x"))), Comparison::GreaterOrEqual, num(1.0), String::new());
+        let mk = |t: Exp| gen_model::build(OptimizationType::Max, var("x"), vec![side(t), other.clone(), needs.clone()], &ds);
+        let (m1, m2) = (mk(term(num(k))), mk(term(spelled)));
+        let (a, bb) = (Linearizer::linearize(m1.clone()), Linearizer::linearize(m2.clone()));
+        let (b1, b2) = (crate::props::c01::bounds_sx(&m1), crate::props::c01::bounds_sx(&m2));
+        let mut c = Case::default();
+        c.show = format!("{}  ~~respelled block side~~>  {}", format!("{}", m1).replace('\n', " ; "), format!("{}", m2).replace('\n', " ; "));
+        c.tags = vec!["respell".into(), "respell-block-side".into()];
+        c.nontrivial = true;
+        let err = |e: &rooc::LinearizationError| crate::props::c01::lin_error(e);
+        if b1 != b2 {
+            c.imp = "(bounds-differ)".into();
+            c.sig = Some("respelling-changes-bounds".into());
+            c.impl_violation = Some(format!("two spellings of the same coefficient inside a block that is a constraint side: inferred ranges / published domains differ: {} {}  vs  {} {}", b1.0, b1.1, b2.0, b2.1));
+        } else {
+            match (&a, &bb) {
+                (Ok(la), Ok(lb)) => {
+                    c.imp = "(both-compile)".into();
+                    if sx::lin_model(la) == sx::lin_model(lb) { c.tags.push("respell-identical-output".into()); }
+                    else {
+                        c.tags.push("respell-different-output".into());
+                        c.oracle = format!("py:{} {} {}", if r.chance(1, 2) { "c01" } else { "c02" }, sx::model(&m1), sx::lin_model(lb));
+                    }
+                }
+                (Err(x), Err(y)) if err(x) == err(y) => { c.imp = format!("(both-rejected {})", err(x)); c.tags.push("respell-both-rejected".into()); }
+                (x, y) => {
+                    c.imp = format!("(acceptance-differs {} {})", x.is_ok(), y.is_ok());
+                    c.sig = Some("respelling-changes-acceptance".into());
+                    let e = |z: &Result<rooc::LinearModel, rooc::LinearizationError>| z.as_ref().err().map(|e| err(e)).unwrap_or("(ok)".into());
+                    c.impl_violation = Some(format!("two spellings of the same coefficient inside a block that is a constraint side: {} vs {}", e(x), e(y)));
+                }
+            }
+        }
+        out.push(c);
+    }
+    out
+}
+
 pub fn generate(seed: u64, n: usize, thorough: bool, _corpus: Option<&str>) -> Vec<Case> {
     let mut r = Rng::new(seed);
     let mut cases = vec![];
@@ -163,6 +378,7 @@ pub fn generate(seed: u64, n: usize, thorough: bool, _corpus: Option<&str>) -> V
     for e in gen_exp::enumerate(size, &leaves) {
         cases.push(one(&e, "simplify", "exhaustive"));
         cases.push(one(&e, "flatten", "exhaustive"));
+        cases.push(one(&e, "collapses", "exhaustive"));
     }
     // regression inputs found by earlier thorough runs (machinery false alarms and finding variants)
     {
@@ -193,6 +409,32 @@ pub fn generate(seed: u64, n: usize, thorough: bool, _corpus: Option<&str>) -> V
             cases.push(one(e, "flatten", "regression"));
         }
     }
+    // targeted stream for the rules random trees rarely reach (nested same-kind n-ary nodes, an absorbing
+    // constant next to an operand that may be undefined): 12 variants each, leaves drawn from the stream
+    {
+        let cfg = ExpCfg { vars: vec!["x".into(), "y".into()], logic: false, minmax: false, special: false };
+        let bx = |op: BinOp, l: Exp, r: Exp| Exp::BinOp(op, Box::new(l), Box::new(r));
+        for i in 0..12 {
+            let (a, b2, c) = (gen_exp::exp(&mut r, &cfg, 1), gen_exp::exp(&mut r, &cfg, 1), gen_exp::exp(&mut r, &cfg, 2));
+            let v = |n: &str| Exp::Variable(n.into());
+            let undef = if i % 2 == 0 { bx(BinOp::Div, a.clone(), Exp::Number(0.0)) } else { Exp::Max(vec![]) };
+            let targeted = vec![
+                Exp::And(vec![Exp::And(vec![v("x"), v("y")]), c.clone()]),
+                Exp::Or(vec![Exp::Or(vec![v("x"), v("y")]), c.clone()]),
+                Exp::Or(vec![b2.clone(), bx(BinOp::Or, v("y"), v("z"))]),
+                bx(BinOp::And, bx(BinOp::And, v("x"), v("z")), b2.clone()),
+                Exp::And(vec![Exp::Number(0.0), undef.clone(), b2.clone()]),
+                Exp::Or(vec![undef.clone(), Exp::Number(1.0 + i as f64)]),
+                bx(BinOp::And, undef.clone(), Exp::Number(0.0)),
+                bx(BinOp::Mul, Exp::Number(0.0), bx(BinOp::Add, undef.clone(), c.clone())),
+            ];
+            for e in &targeted {
+                cases.push(one(e, "simplify", "targeted"));
+                cases.push(one(e, "flatten", "targeted"));
+                cases.push(one(e, "collapses", "targeted"));
+            }
+        }
+    }
     let cfgs = [
         ExpCfg { vars: vec!["x".into(), "y".into(), "z".into()], logic: true, minmax: true, special: false },
         ExpCfg { vars: vec!["x".into(), "y".into()], logic: false, minmax: false, special: false },
@@ -206,9 +448,11 @@ pub fn generate(seed: u64, n: usize, thorough: bool, _corpus: Option<&str>) -> V
         let tag = ["random-mixed", "random-arith", "random-special", "random-closed"][i % cfgs.len()];
         cases.push(one(&e, "simplify", tag));
         cases.push(one(&e, "flatten", tag));
+        cases.push(one(&e, "collapses", tag));
     }
     for _ in 0..n / 4 {
         if let Some(c) = respell_case(&mut r) { cases.push(c); }
     }
+    cases.extend(respell_block_cases(&mut r, if thorough { 600 } else { 60 }));
     cases
 }
